@@ -165,8 +165,19 @@ NetP7 == [id |-> "P7-ll-quarters", fam |-> "ll", ang |-> 0, rot |-> 160, ph |-> 
                       <<0, 141, 0, 140>>, <<75, 10, 75, 10>>, <<0, 0, 0, 233>>, <<0, 0, 0, 234>>,
                       <<-60, 20, 30, -20>>, <<0, 0, 0, 0>> >>]
 
-NetsAll == <<NetF1, NetF2, NetF3, NetF4, NetF5, NetF6, NetF7, NetP1, NetP2, NetP3, NetP4, NetP5, NetP6, NetP7>>
-NetsQuick == <<NetF1, NetF2, NetF3, NetF5, NetF6, NetF7, NetP1, NetP2, NetP3, NetP5, NetP6>>
+\* whole amperes, one phase at 0 degrees, whole coefficients and limits, zero / whole-ampere tolerances: the aggregates
+\* of the menu sit EXACTLY on limit + tolerance (32 A, 40 A, 33 A, 41 A) - "at most the limit plus the tolerance" includes
+\* equality - and every quantity is a small integer, so floating point computes these cases exactly and the boundary
+\* itself is decisive (see props_feasibility.exact_boundary)
+TW1 == [at |-> 1, rn |-> 0, rd |-> 1]            \* 1 A, 0
+NetE1 == [id |-> "E1-col-exact", fam |-> "col", ang |-> 0, rot |-> 0, ph |-> <<1, 1, 1>>, cd |-> 1,
+          cons |-> << [n |-> <<1, 1, 0>>, lim |-> 32], [n |-> <<1, 1, 1>>, lim |-> 40] >>, upa |-> 1, sq |-> FALSE,
+          tols |-> <<TZero, TW1>>,
+          menu |-> << <<16, 16, 8>>, <<16, 17, 8>>, <<32, 0, 8>>, <<16, 16, 9>>, <<0, 0, 40>>, <<17, 16, 7>>,
+                      <<17, 16, 8>>, <<17, 17, 7>>, <<0, 0, 41>>, <<0, 0, 0>> >>]
+
+NetsAll == <<NetE1, NetF1, NetF2, NetF3, NetF4, NetF5, NetF6, NetF7, NetP1, NetP2, NetP3, NetP4, NetP5, NetP6, NetP7>>
+NetsQuick == <<NetE1, NetF1, NetF2, NetF3, NetF5, NetF6, NetF7, NetP1, NetP2, NetP3, NetP5, NetP6>>
 
 DropsAll == {{}, {1}, {2, 3}}
 DropsQuick == {{}, {2}}
